@@ -9,7 +9,7 @@
 use crate::gen::Rng;
 use crate::oracle::linref;
 use crate::report::{guard, jf, jnum, par_cases, Cfg, Hasher, Report};
-use compute::linalg::{Matrix, Vector};
+use compute::linalg::{matmul, matmul_blocked, xtx, Dot, Matrix, Vector};
 use compute::predict::{Kernel, RBFKernel, RQKernel};
 use serde_json::{json, Value};
 
@@ -849,13 +849,317 @@ fn grid_checks(rep: &mut Report, rng: &mut Rng, which: usize, class: &str, form:
     judge_matrix(rep, &k, &regime, json!(FORMS8[form]), &x, &y, same, r);
 }
 
+// ---------------------------------------------------------------------------------------------
+// history independence of the kernels with respect to other library calls on the same thread
+//
+// A kernel is a function of its parameters and its two point sets. Its matrix form is assembled from the
+// library's general-purpose pieces (reshape, element-wise maps, broadcast sums, an A·Bᵀ product with
+// inner dimension 1), which every other user of the library calls with OTHER shapes. Whatever those
+// calls leave behind on the thread (workspaces, caches, lazily initialised tables) must not reach the
+// kernel. Each case runs, on a thread of its own, a sequence of rounds "unrelated work, then one
+// matrix-form evaluation"; every evaluation is compared bit for bit with the same evaluation made as the
+// first library call of a fresh thread, and — as everywhere — entry by entry with the scalar form.
+// The work never enters a verdict (it belongs to other properties); only the number of calls that
+// returned is recorded.
+
+const WORK: [&str; 11] = ["dot_t", "t_dot", "dot", "t_dot_t", "matmul-flags", "mat-vec", "broadcast", "reshape", "elementwise-map", "linear-gram", "other-kernel-shapes"];
+const PATTERNS: [&str; 4] = ["big-then-small", "small-then-big", "growing", "shrinking"];
+
+fn on_fresh_thread<T: Send>(f: impl FnOnce() -> T + Send) -> T {
+    std::thread::scope(|s| s.spawn(f).join().expect("fresh thread"))
+}
+
+fn rand_vec(rng: &mut Rng, n: usize) -> Vec<f64> {
+    // entries of either sign away from zero, so that nothing left behind by the work is a neutral element
+    (0..n).map(|_| rng.range(0.5, 10.0) * if rng.bool() { 1.0 } else { -1.0 }).collect()
+}
+fn rand_matrix(rng: &mut Rng, r: usize, c: usize) -> Matrix {
+    Matrix::new(rand_vec(rng, r * c), r as i32, c as i32)
+}
+
+/// Unrelated library work of class `kind` with dimensions up to `size` (rows and columns 2..size, never
+/// the n×1 shapes of the kernels themselves). Returns the number of library calls that returned.
+fn do_work(rng: &mut Rng, kind: &str, size: usize, other: &Ker) -> usize {
+    let size = size.max(2);
+    let mut done = 0usize;
+    let mut ok = |r: Result<(), String>| {
+        if r.is_ok() {
+            done += 1;
+        }
+    };
+    let dim = |rng: &mut Rng| rng.usize(2, size);
+    for rep_no in 0..3 {
+        let (m, l, n) = (if rep_no == 0 { size } else { dim(rng) }, dim(rng), dim(rng));
+        match kind {
+            "dot_t" => {
+                let (a, b) = (rand_matrix(rng, m, l), rand_matrix(rng, n, l));
+                ok(guard(|| {
+                    std::hint::black_box(a.dot_t(&b));
+                }));
+                ok(guard(|| {
+                    std::hint::black_box((&a).dot_t(b.clone()));
+                }));
+            }
+            "t_dot" => {
+                let (a, b) = (rand_matrix(rng, l, m), rand_matrix(rng, l, n));
+                ok(guard(|| {
+                    std::hint::black_box(a.t_dot(&b));
+                }));
+                ok(guard(|| {
+                    std::hint::black_box((&a).t_dot(b.clone()));
+                }));
+            }
+            "dot" => {
+                let (a, b) = (rand_matrix(rng, m, l), rand_matrix(rng, l, n));
+                ok(guard(|| {
+                    std::hint::black_box(a.dot(&b));
+                }));
+                ok(guard(|| {
+                    std::hint::black_box((&a).dot(b.clone()));
+                }));
+            }
+            "t_dot_t" => {
+                let (a, b) = (rand_matrix(rng, l, m), rand_matrix(rng, n, l));
+                ok(guard(|| {
+                    std::hint::black_box(a.t_dot_t(&b));
+                }));
+                ok(guard(|| {
+                    std::hint::black_box((&a).t_dot_t(b.clone()));
+                }));
+            }
+            "matmul-flags" => {
+                for (ta, tb) in [(false, false), (true, false), (false, true), (true, true)] {
+                    // op(A) is m×l, op(B) is l×n
+                    let (ra, ca) = if ta { (l, m) } else { (m, l) };
+                    let (rb, cb) = if tb { (n, l) } else { (l, n) };
+                    let (a, b) = (rand_vec(rng, ra * ca), rand_vec(rng, rb * cb));
+                    ok(guard(|| {
+                        std::hint::black_box(matmul(&a, &b, ra, rb, ta, tb));
+                    }));
+                    let bs = *rng.choose(&[1usize, 2, 4, 8, 16, 64]);
+                    ok(guard(|| {
+                        std::hint::black_box(matmul_blocked(&a, &b, ra, rb, ta, tb, bs));
+                    }));
+                }
+                let x = rand_vec(rng, m * l);
+                ok(guard(|| {
+                    std::hint::black_box(xtx(&x, m));
+                }));
+            }
+            "mat-vec" => {
+                let a = rand_matrix(rng, m, l);
+                let (v, w, u) = (Vector::new(rand_vec(rng, l)), Vector::new(rand_vec(rng, m)), Vector::new(rand_vec(rng, l)));
+                ok(guard(|| {
+                    std::hint::black_box(a.dot(&v));
+                }));
+                ok(guard(|| {
+                    std::hint::black_box(a.t_dot(&w));
+                }));
+                ok(guard(|| {
+                    std::hint::black_box(w.dot(&a));
+                }));
+                ok(guard(|| {
+                    std::hint::black_box(v.dot_t(&a));
+                }));
+                ok(guard(|| {
+                    std::hint::black_box(v.dot(&u));
+                }));
+            }
+            "broadcast" => {
+                let (col, row, full, full2, one) = (rand_matrix(rng, m, 1), rand_matrix(rng, 1, n), rand_matrix(rng, m, n), rand_matrix(rng, m, n), rand_matrix(rng, 1, 1));
+                ok(guard(|| {
+                    std::hint::black_box(&col + &row);
+                }));
+                ok(guard(|| {
+                    std::hint::black_box(&row - &col);
+                }));
+                ok(guard(|| {
+                    std::hint::black_box(&full - &row);
+                }));
+                ok(guard(|| {
+                    std::hint::black_box(&col * &full);
+                }));
+                ok(guard(|| {
+                    std::hint::black_box(&full / &full2);
+                }));
+                ok(guard(|| {
+                    std::hint::black_box(&one + &full);
+                }));
+                ok(guard(|| {
+                    std::hint::black_box(-(2.0 * &full) / 3.0 + 1.0);
+                }));
+            }
+            "reshape" => {
+                let full = rand_matrix(rng, m, n);
+                let v = Vector::new(rand_vec(rng, m * n));
+                ok(guard(|| {
+                    std::hint::black_box(full.reshape(-1, 1));
+                }));
+                ok(guard(|| {
+                    std::hint::black_box(full.reshape(1, -1));
+                }));
+                ok(guard(|| {
+                    std::hint::black_box(full.reshape(n as i32, m as i32));
+                }));
+                ok(guard(|| {
+                    std::hint::black_box(full.reshape(-1, m as i32));
+                }));
+                ok(guard(|| {
+                    std::hint::black_box(full.t());
+                }));
+                ok(guard(|| {
+                    std::hint::black_box(v.reshape(m as i32, n as i32));
+                }));
+                ok(guard(|| {
+                    std::hint::black_box(v.reshape(-1, 1).reshape(1, -1));
+                }));
+            }
+            "elementwise-map" => {
+                let long = Vector::new((0..50 * size).map(|_| rng.range(0.1, 5.0)).collect::<Vec<f64>>());
+                let full = Matrix::new((0..m * n).map(|_| rng.range(0.1, 5.0)).collect::<Vec<f64>>(), m as i32, n as i32);
+                let a = rng.range(-3.0, 3.0);
+                ok(guard(|| {
+                    std::hint::black_box(long.powf(a));
+                }));
+                ok(guard(|| {
+                    std::hint::black_box(long.exp());
+                }));
+                ok(guard(|| {
+                    std::hint::black_box(long.powi(2));
+                }));
+                ok(guard(|| {
+                    std::hint::black_box(full.powf(-a));
+                }));
+                ok(guard(|| {
+                    std::hint::black_box((-full.powi(2)).exp());
+                }));
+            }
+            "linear-gram" => {
+                // linear kernel on d-dimensional features, and the weights·cross-covariance product of a GP prediction
+                let d = rng.usize(2, 8.min(size));
+                let (f, g) = (rand_matrix(rng, m, d), rand_matrix(rng, n, d));
+                ok(guard(|| {
+                    std::hint::black_box(f.dot_t(&f));
+                }));
+                ok(guard(|| {
+                    std::hint::black_box(f.dot_t(&g));
+                }));
+                let (ks, w) = (rand_matrix(rng, n, m), rand_matrix(rng, 1, m));
+                ok(guard(|| {
+                    std::hint::black_box(ks.dot_t(&w));
+                }));
+            }
+            "other-kernel-shapes" => {
+                let (x, y) = (rand_vec(rng, m), rand_vec(rng, n));
+                let form = rng.usize(0, 7);
+                ok(guard(|| {
+                    std::hint::black_box(call_form(other, &x, &y, form));
+                }));
+                ok(guard(|| {
+                    std::hint::black_box(other.by_value(x[0], y[0]));
+                }));
+            }
+            _ => unreachable!(),
+        }
+    }
+    done
+}
+
+/// (work size, number of kernel points) per round.
+fn pattern_rounds(rng: &mut Rng, pattern: &str, wcap: usize, kcap: usize) -> Vec<(usize, usize)> {
+    let w = |rng: &mut Rng, lo: usize, hi: usize| rng.usize(lo.min(wcap), hi.min(wcap));
+    let k = |rng: &mut Rng, lo: usize, hi: usize| rng.usize(lo.min(kcap), hi.min(kcap));
+    let mut ladder = vec![(w(rng, 2, 3), k(rng, 1, 3)), (w(rng, 4, 8), k(rng, 4, 8)), (w(rng, 9, 20), k(rng, 9, 20)), (w(rng, 21, 40), k(rng, 21, 60))];
+    match pattern {
+        "big-then-small" => vec![(w(rng, 17, 40), k(rng, 1, 4))],
+        "small-then-big" => vec![(w(rng, 2, 4), k(rng, 24, 60))],
+        "growing" => ladder,
+        _ => {
+            ladder.reverse();
+            ladder
+        }
+    }
+}
+
+fn history_checks(cfg: &Cfg, rep: &mut Report, rng: &mut Rng, which: usize, form: usize, work: &str, pattern: &str) {
+    let make = |rng: &mut Rng, which: usize, rep: &mut Report| match make_kernel(rng, which) {
+        Ok(k) => Some(k),
+        Err(msg) => {
+            rep.check("C20.ctor.accepts_valid", if which == 0 { "rbf" } else { "rq" }, false, || json!({"panic": msg}));
+            None
+        }
+    };
+    let (k, other) = match (make(rng, which, rep), make(rng, 1 - which, rep)) {
+        (Some(k), Some(o)) => (k, o),
+        _ => return,
+    };
+    let (wcap, kcap) = if cfg.miri() { (4, 4) } else { (40, 60) };
+    let rounds = pattern_rounds(rng, pattern, wcap, kcap);
+    // point sets of every round (generated here: all randomness comes from the case rng)
+    let sets: Vec<(Vec<f64>, Vec<f64>, bool)> = rounds
+        .iter()
+        .map(|&(_, nk)| {
+            let x = point_set(rng, nk, k.len_scale());
+            let same = rng.chance(0.4);
+            let ny = if rng.bool() { nk } else { rng.usize(1, kcap) };
+            let y = if same { x.clone() } else { second_set(rng, &k, &x, ny) };
+            (x, y, same)
+        })
+        .collect();
+    let work_seed = rng.u64();
+    // reference: each evaluation as the first library call of a new thread
+    let fresh: Vec<Result<Matrix, String>> = sets.iter().map(|(x, y, _)| on_fresh_thread(|| guard(|| call_form(&k, x, y, form)))).collect();
+    // the history: one thread, work and evaluations interleaved
+    let hist: Vec<(usize, Result<Matrix, String>)> = on_fresh_thread(|| {
+        let mut wr = Rng::new(work_seed);
+        rounds.iter().zip(&sets).map(|(&(wsize, _), (x, y, _))| (do_work(&mut wr, work, wsize, &other), guard(|| call_form(&k, x, y, form)))).collect()
+    });
+    let regime = format!("{}:{}:after:{}", k.name(), FORMS8[form].split('(').next().unwrap(), work);
+    for (r, ((x, y, same), (calls, got))) in sets.iter().zip(hist).enumerate() {
+        rep.case(&regime);
+        rep.seen(&format!("cover:history:pattern:{}", pattern), 1);
+        rep.seen(&format!("cover:{}:{}:history", k.name(), FORMS8[form]), 1);
+        rep.note_add(&format!("history.work_calls_returned.{}", work), calls as f64);
+        if calls == 0 {
+            rep.note_add("history.rounds_without_any_completed_work_call", 1.0);
+        }
+        let diff = match (&fresh[r], &got) {
+            (Ok(a), Ok(b)) => {
+                if (a.nrows, a.ncols, a.data.len()) != (b.nrows, b.ncols, b.data.len()) {
+                    Some(usize::MAX)
+                } else {
+                    (0..a.data.len()).find(|&q| a.data[q].to_bits() != b.data[q].to_bits())
+                }
+            }
+            (Err(_), Err(_)) => None,
+            _ => Some(usize::MAX),
+        };
+        rep.check("C20.matrix.history_independent", &regime, diff.is_none(), || {
+            let mut o = json!({"kernel": k.params(), "argument_kind": FORMS8[form], "x": jf(x), "y": jf(y), "preceded_on_the_same_thread_by": work, "work_dimensions_up_to": rounds[r].0, "pattern": pattern, "round": r,
+                               "expected": "bit-identical to the same call made as the first library call of a new thread"});
+            match (&fresh[r], &got, diff) {
+                (Ok(a), Ok(b), Some(q)) if q != usize::MAX => {
+                    let (i, j) = (q / y.len().max(1), q % y.len().max(1));
+                    o["observed"] = json!({"i": i, "j": j, "after_the_work": jnum(b.data[q]), "on_a_fresh_thread": jnum(a.data[q]), "scalar_form": jnum(k.by_value(x[i.min(x.len() - 1)], y[j]))});
+                }
+                (a, b, _) => {
+                    o["observed"] = json!({"after_the_work": b.as_ref().map(|m| vec![m.nrows, m.ncols]).map_err(|e| e.clone()), "on_a_fresh_thread": a.as_ref().map(|m| vec![m.nrows, m.ncols]).map_err(|e| e.clone())});
+                }
+            }
+            o
+        });
+        judge_matrix(rep, &k, &regime, json!({"kind": FORMS8[form], "after": work}), x, y, *same, got);
+    }
+}
+
 pub fn run(cfg: &Cfg, rep: &mut Report) {
-    rep.rule = "per case one kernel (RBF / RQ alternating; variance, length scale, mixture parameter log-uniform in (1e-2,1e2)): 32 scalar pairs in ±1e3 at distances 1e-3..1e2 length scales, one 64-point distance ladder, one Gram matrix of the scalar form on 1..60 points spread over 0.03..30 length scales (grid / uniform / normal clouds, repeated points now and then), and one matrix-form call per argument kind (Vector, &Vector, Matrix n×1 and 1×n, owned and borrowed) on two point sets of independent sizes 1..60. Matrix-shape family: every pair of operand shapes r×c, r, c in 1..6 (1296 pairs: columns, rows, 1×1 and genuinely 2-D arrays holding r·c points), owned and borrowed, both kernels. round-parameter family: the mixture parameter (RQ) / length scale (RBF) walks a grid of round values (every j/2 up to 12, half-integers and integers up to 99.5, quarters, thirds, decimals), variance and the other parameter round one time in two; scalar pairs, ladder and one matrix-form call per argument kind on 1..12 points. Degenerate point sets (per kernel x class x operand form, 2 (12) rounds): all points +0 / -0 / mixed signed zeros, one constant (5e-324 .. 1e3, both signs), two different constants, single points (against itself, another point, a cloud), sets drawn from a pool of <= 3 values, one set constant (also 0) and the other a cloud; sizes 1, 2, 8..16, 1..60; matrix form against scalar form entry by entry and against the variance wherever x_i = y_j. Structured point sets (per kernel x class x operand form, 3 (24) rounds; 2..60 points: powers of two and their neighbours, 2..7, 8..60): grids start + i*h with one h for both sets, on a common dyadic lattice (all arithmetic exact) or with typed decimal steps, against themselves, shifted by multiples / fractions of the step / freely, other length, other step, reversed, both descending with an offset; geometric grids; integer lattices with integer / half-integer offsets; irregular integer subsets and permuted lattices; operand forms Vector, &Vector, Matrix n x 1, 1 x n, r x c, owned and borrowed. non-trivial = an entry strictly between 0.1% and 99.9% of the variance; distinct by parameters and points".into();
+    rep.rule = "per case one kernel (RBF / RQ alternating; variance, length scale, mixture parameter log-uniform in (1e-2,1e2)): 32 scalar pairs in ±1e3 at distances 1e-3..1e2 length scales, one 64-point distance ladder, one Gram matrix of the scalar form on 1..60 points spread over 0.03..30 length scales (grid / uniform / normal clouds, repeated points now and then), and one matrix-form call per argument kind (Vector, &Vector, Matrix n×1 and 1×n, owned and borrowed) on two point sets of independent sizes 1..60. Matrix-shape family: every pair of operand shapes r×c, r, c in 1..6 (1296 pairs: columns, rows, 1×1 and genuinely 2-D arrays holding r·c points), owned and borrowed, both kernels. round-parameter family: the mixture parameter (RQ) / length scale (RBF) walks a grid of round values (every j/2 up to 12, half-integers and integers up to 99.5, quarters, thirds, decimals), variance and the other parameter round one time in two; scalar pairs, ladder and one matrix-form call per argument kind on 1..12 points. Degenerate point sets (per kernel x class x operand form, 2 (12) rounds): all points +0 / -0 / mixed signed zeros, one constant (5e-324 .. 1e3, both signs), two different constants, single points (against itself, another point, a cloud), sets drawn from a pool of <= 3 values, one set constant (also 0) and the other a cloud; sizes 1, 2, 8..16, 1..60; matrix form against scalar form entry by entry and against the variance wherever x_i = y_j. Structured point sets (per kernel x class x operand form, 3 (24) rounds; 2..60 points: powers of two and their neighbours, 2..7, 8..60): grids start + i*h with one h for both sets, on a common dyadic lattice (all arithmetic exact) or with typed decimal steps, against themselves, shifted by multiples / fractions of the step / freely, other length, other step, reversed, both descending with an offset; geometric grids; integer lattices with integer / half-integer offsets; irregular integer subsets and permuted lattices; operand forms Vector, &Vector, Matrix n x 1, 1 x n, r x c, owned and borrowed. History family (per kernel x operand form x kind of work, 2 (16) rounds): on a thread of its own, unrelated library work with other shapes (dot_t / t_dot / dot / t_dot_t products of matrices with 2..40 rows and columns, matmul / matmul_blocked with all transpose flags and xtx, matrix-vector products, broadcast sums of other shapes, reshapes, element-wise maps on vectors of 100..2000 entries, linear-kernel Gram matrices of 2..8-dimensional features, the other kernel on other sizes), then a matrix-form evaluation; big-then-small, small-then-big, four growing and four shrinking rounds; each evaluation compared bit for bit with the same call on a fresh thread and entry by entry with the scalar form. non-trivial = an entry strictly between 0.1% and 99.9% of the variance; distinct by parameters and points".into();
     rep.assume("'positive' is asserted as k >= 0, and k > 0 wherever the exact value exceeds exp(-700): beyond that a correct kernel underflows to zero");
     rep.assume("monotone / bounded carry a 4ε relative slack (powf is accurate but not proven monotone)");
     rep.assume("a Matrix argument of shape r×c is the point set of its r·c entries in storage (row-major) order: a single column, a single row or a genuinely 2-D array; the matrix form must have r·c rows (columns) for it and equal the scalar form on the flattened points");
     rep.assume("matrix-form entries may differ from the scalar form by the cancellation error of x²+y²−2xy: relative expm1(32ε(x²+y²)/(2ℓ²)) + 16ε(2+t) (t = exponent for RBF, mixture parameter for RQ)");
     rep.assume("matrix form at zero distance (x_i = y_j, +0 = -0): the variance within the same bound as any other entry (the expansion x²+y²−2xy is exactly 0 there in IEEE arithmetic, but the property does not promise a bit pattern for the matrix form)");
+    rep.assume("history independence: a kernel evaluation is a function of the kernel parameters and the two point sets, so the same call returns the same bits whatever other library calls (of any shape) the thread made before; compared with the same call made as the first library call of a new thread. The unrelated work itself is not judged here");
     let n_cases = cfg.pick(600, 15_000, 10);
     par_cases(cfg, rep, 1, n_cases, |i, rng, rep| {
         let k = match make_kernel(rng, i % 2) {
@@ -964,6 +1268,31 @@ pub fn run(cfg: &Cfg, rep: &mut Report) {
         let (which, class, form) = if cfg.lite { (i % 2, GRIDS[i % GRIDS.len()], i % 8) } else { (i % 2, GRIDS[(i / 2) % GRIDS.len()], (i / (2 * GRIDS.len())) % 8) };
         grid_checks(rep, rng, which, class, form, cap);
     });
+    // ---- history independence w.r.t. other library calls on the same thread
+    let combos = 2 * 8 * WORK.len();
+    let n_hist = cfg.pick(2 * combos, 16 * combos, 4);
+    par_cases(cfg, rep, 6, n_hist, |i, rng, rep| {
+        // (kernel, operand form, kind of work) enumerated, the interleaving pattern rotating against them;
+        // the reduced workloads walk the diagonal
+        let (which, form, wi) = if cfg.lite { (i % 2, i % 8, (i * 5) % WORK.len()) } else { (i % 2, (i / 2) % 8, (i / 16) % WORK.len()) };
+        let pattern = PATTERNS[(wi + form + which + i / combos) % PATTERNS.len()];
+        history_checks(cfg, rep, rng, which, form, WORK[wi], pattern);
+    });
+    if !cfg.lite {
+        for name in ["rbf", "rq"] {
+            for f in ["Vector", "&Vector", "Matrix", "&Matrix"] {
+                for w in WORK {
+                    rep.require(&format!("{}:{}:after:{}", name, f, w), 1);
+                }
+            }
+            for f in FORMS8 {
+                rep.require(&format!("cover:{}:{}:history", name, f), 1);
+            }
+        }
+        for p in PATTERNS {
+            rep.require(&format!("cover:history:pattern:{}", p), 1);
+        }
+    }
     for name in ["rbf", "rq"] {
         for c in DEGENERATE {
             rep.require(&format!("cover:{}:degenerate:{}", name, c), 1);
